@@ -570,11 +570,11 @@ impl World {
     pub fn op_restart(&mut self, c: &str) -> Value {
         self.clients.get_mut(c).unwrap().restart();
         let gs: Vec<String> = self.groups.keys().cloned().collect();
-        let mut post = serde_json::Map::new();
+        let mut posts: Vec<Value> = vec![];
         for g in gs {
-            post.insert(g.clone(), self.project(c, &g));
+            posts.push(json!({"g":g,"post":self.project(c, &g)}));
         }
-        json!({"op":"Restart","c":c,"post":post})
+        json!({"op":"Restart","c":c,"posts":posts})
     }
 
     pub fn op_welcome(&mut self, c: &str, w: &str, what: &str) -> Value {
